@@ -553,6 +553,9 @@ def run_shard(shard: int, nshards: int, seed: int, tier: str) -> ShardResult:
     hyp_run(distgen.cases(distgen.DistCfg(min_ranks=2)), body, seed,
             pl["examples"])
     res.extra["exhaustive"] = True   # in the single-fault dimension
+    res.extra["exhaustive_scope"] = (
+        "every single fault of the listed kinds at every message of every "
+        "generated program; programs and fault pairs are sampled")
     return res
 
 
